@@ -161,7 +161,10 @@ def _one(out: Outcome, batch: _Batch, stream: str, fam: str, spec: dict, conf: d
         vs.append(Violation("C14/control_loop_spins", "the event loop never became quiescent: the control loop spins at one instant of virtual time "
                             f"(t={tr.final.get('t')}); timers expected: {[(e.kind, e.step, e.due) for e in exps if e.delivered_t is None]}", case))
     out.violations += vs
-    if stream == "norelease" and cs:
+    # a run that never finishes is legitimately released once the (huge) idle_timeout has really elapsed on the
+    # virtual clock (the loop jumps there when nothing else is scheduled): only an earlier cut is unexpected
+    early = [c for c in cs if not (c["kind"] == "idle_release" and c["t"] >= 1000.0 + float(conf.get("idle_timeout") or 0))]
+    if stream == "norelease" and early:
         out.violations.append(Violation("C14/unexpected_release", f"the run left memory although idle_timeout is {conf.get('idle_timeout')} and no process stop was scheduled: {[(c['kind'], c['t']) for c in cs]}", case))
     if len(out.samples) < 5 and (vs or (cs and exps)):
         out.sample({"stream": stream, "spec": spec, "conf": conf, "end": tr.end, "final": {k: v for k, v in tr.final.items() if k != "persisted"},
